@@ -187,7 +187,7 @@ def run_mc(case):
 
     rng = np.random.default_rng(case["seed"])
     nS, nA = int(rng.integers(2, 6)), int(rng.integers(2, 4))
-    gamma = float(rng.choice([0.0, 0.5, 0.9, 1.0]))
+    gamma = float(rng.choice([0.0, 0.3, 0.5, 0.9, 1.0]))
     q0 = rand_table(rng, nS, nA)
     n0 = np.zeros((nS, nA), np.float32)
     if rng.random() < 0.4:
@@ -197,6 +197,8 @@ def run_mc(case):
     repeated = False
     for ep in range(int(rng.integers(1, 7))):
         L = int(rng.choice([1, 2, 3, 5, 9]))
+        if case["seed"] % 3 == 0 and ep == 0:
+            L = int(rng.choice([150, 400]))  # long episode: gamma**t underflows
         obs = rng.integers(0, nS, size=L)
         act = rng.integers(0, nA, size=L)
         rew = rng.normal(size=L).astype(np.float32)
